@@ -17,6 +17,19 @@ def encoders():
     return {"PVL": e.PVLEncoder, "ODL": e.ODLEncoder, "PDS3": e.PDSLabelEncoder, "ISIS": e.ISISEncoder}
 
 
+class Length(float):
+    """a number that also carries .value / .units (as the float subclasses of third-party unit libraries do)"""
+
+    def __new__(cls, value, units="m"):
+        obj = super().__new__(cls, value)
+        obj.units = units
+        return obj
+
+    @property
+    def value(self):
+        return float(self)
+
+
 def _value(s):
     # atoms of the model become a few different Python value kinds
     return {"x": "x", "y": 5, "m": "m"}.get(s, s)
@@ -24,7 +37,7 @@ def _value(s):
 
 def build(tree, classes):
     if tree["cls"] == "atom":
-        return tree["s"]
+        return classes["__qcls__"](1.5) if tree["s"] == "y" else tree["s"]     # atom "y": a value of a custom numeric class
     m = classes[tree["cls"]]()
     for k, sub in tree["items"]:
         m.append(k, build(sub, classes))
@@ -34,22 +47,42 @@ def build(tree, classes):
 def _session(case):
     import pvl
     tree, script = case["tree"], case["script"]
-    m = build(tree, _G["classes"])
+    qcls = type("Length_%x" % (id(case) & 0xffffff), (Length,), {})     # a class of its own for this session
+    m = build(tree, dict(_G["classes"], __qcls__=qcls))
     evs = []
     encs = {}
     for step in script:
+        if step == "other":
+            # unrelated activity: a dump of the same module with other options, an encoder of another class being configured,
+            # a plain dumps() of another module
+            import pvl.encoder as E
+            try:
+                pvl.dumps(m.copy(), indent=6, width=40)
+            except Exception:
+                pass
+            try:
+                E.ODLEncoder().add_quantity_cls(qcls, "value", "units")
+                pvl.dumps(_G["classes"]["PVLModule"](z=1))
+            except Exception:
+                pass
+            p0 = heapops.project(m)
+            evs.append({"ev": "other", "enc": "", "pre": p0, "post": p0, "text": "", "exc": ""})
+            continue
         if step == "mutate":
             m.append("a", "m")
             evs.append({"ev": "mutate", "enc": "", "pre": heapops.project(m), "post": heapops.project(m), "text": "", "exc": ""})
             continue
         enc = encs.get(step)
-        if enc is None:
+        if enc is None and step != "DEFAULT":
             enc = encs[step] = _G["encoders"][step]()      # one encoder instance per dialect and session
         pre = heapops.project(m)
         try:
             with warnings.catch_warnings():
                 warnings.simplefilter("ignore")
-                t = pvl.dumps(m, encoder=enc) if case.get("via", "dumps") == "dumps" else enc.encode(m)
+                if step == "DEFAULT":
+                    t = pvl.dumps(m)
+                else:
+                    t = pvl.dumps(m, encoder=enc) if case.get("via", "dumps") == "dumps" else enc.encode(m)
             text, exc = hashlib.blake2b(t.encode("utf-8", "surrogatepass"), digest_size=8).hexdigest(), ""
         except Exception as e:
             text, exc = "", type(e).__name__
@@ -83,6 +116,7 @@ def run(ctx, rep):
     from . import c11
     _G["classes"] = heapops.cls_by_name()
     _G["encoders"] = encoders()
+    _G["qcls"] = Length
     rep.rule = ("(module tree, script of 3 dump/mutate steps) cases enumerated by TLC from spec/MC_Dump.tla, run on "
                 "real modules with the four encoders; every event judged by TLC with spec/Trace_Dump.tla "
                 "(argument unchanged up to the PDS3 group->object relabel; same text/refusal as the previous dump "
